@@ -184,3 +184,11 @@ Inductive rop :=
 | RSwap                              (* s : swap(_ptr, rhs._ptr) *)
 | RWrite (t : bool) (v : Z)          (* w : if (x) *x = v *)
 | RSelf (t : bool).                  (* f *)
+
+(* unexpected<E>: objects a, b of unexpected<E> and c of unexpected<E2> *)
+Inductive uop :=
+| UValue (t : bool) (v : Z)          (* v, i : x = unexpected(v) / unexpected(in_place, v) *)
+| UCopy (t : bool)                   (* c : x = y *)
+| UMove (t : bool)                   (* m : x = move(y) *)
+| USwap                              (* s, S : a.swap(b) / swap(a, b) *)
+| USetC (v : Z).                     (* E : c = unexpected<E2>(v) *)
